@@ -1092,7 +1092,16 @@ func (m *Memberlist) aliveNode(a *alive, notify chan struct{}, bootstrap bool) {
 
 	// Bail if strictly less and this is about us
 	if a.Incarnation < state.Incarnation && isLocalNode {
-		return
+		if !bootstrap {
+			return
+		}
+
+		// The listeners are running before we have announced ourselves, so
+		// claims about an earlier life of this name may have been refuted
+		// already and left our own record (still in its initial dead state)
+		// ahead of the announcement. The announcement must not be dropped,
+		// or we would never list ourselves as alive.
+		a.Incarnation = m.nextIncarnation()
 	}
 
 	// Clear out any suspicion timer that may be in effect.
